@@ -350,7 +350,9 @@ func diffLoose(a, b *Node) *Diff { return diffX(a, b, "$", false) }
 func diffAt(a, b *Node, path string) *Diff { return diffX(a, b, path, true) }
 
 func diffX(a, b *Node, path string, strict bool) *Diff {
-	if !strict && ((a.K == kFloat && b.K == kBig) || (a.K == kBig && b.K == kFloat)) {
+	// (strict: only an expected float found as a decimal kept as text - the
+	// lossless form the parsers choose for long literals - not the reverse)
+	if (a.K == kFloat && b.K == kBig) || (!strict && a.K == kBig && b.K == kFloat) {
 		// a decimal kept as text against a float: the same number when the
 		// text denotes that float
 		fa, _ := strconv.ParseFloat(a.S, 64)
